@@ -271,7 +271,7 @@ func run(c *hx.Ctx) {
 	for _, cs := range directedCases() {
 		doCase(cs, true)
 	}
-	n := c.Scale(150, 4000)
+	n := c.Scale(130, 4000)
 	for i := 0; i < n; i++ {
 		r := c.R.Fork()
 		cs := Case{Seed: r.U64(), Regime: i % 6, Opts: chaingen.GenOpts{Blocks: 6 + r.Intn(16), Branchiness: 2 + r.Intn(4), TxPerBlock: 1 + r.Intn(5), Corruptions: r.Intn(2), Jitter: r.Intn(4)}}
@@ -280,6 +280,13 @@ func run(c *hx.Ctx) {
 			cs.Regime = []int{0, 1, 3, 4}[r.Intn(4)]
 			cs.Opts.Kinds = []string{"v1-form", "v1-form", "v1-revise", "v1-revise-window", "v1-proof", "v1-transfer"}
 			cs.Opts.TxPerBlock = 2 + r.Intn(4)
+		}
+		if i%5 == 2 {
+			// same-block contract shapes (formed and proved / revised in one block, a v2 contract
+			// touched twice in one block) among the ordinary kinds
+			cs.Opts.Kinds = append(append(append([]string(nil), chaingen.TxKinds...), chaingen.ShapeKinds...), chaingen.ShapeKinds...)
+			cs.Opts.TxPerBlock = 2 + r.Intn(4)
+			cs.Opts.Branchiness = 2 + r.Intn(2)
 		}
 		var t *chaingen.Tree
 		func() {
